@@ -20,6 +20,7 @@ VERIF = os.path.dirname(os.path.dirname(os.path.abspath(__file__)))
 sys.path.insert(0, VERIF)
 from skverif.selftest import copy_pkg  # noqa: E402
 
+DIR = ["twins"]
 ALL = [f"C{i:02d}" for i in range(1, 19)]
 
 
@@ -27,7 +28,7 @@ def run(tid, repo):
     tmp = tempfile.mkdtemp(prefix="skverif_tw_")
     try:
         copy_pkg(repo, tmp)
-        r = subprocess.run(["patch", "-p1", "-s", "-d", tmp, "-i", os.path.join(VERIF, "twins", tid, "patch.diff")], capture_output=True, text=True)
+        r = subprocess.run(["patch", "-p1", "-s", "-d", tmp, "-i", os.path.join(VERIF, DIR[0], tid, "patch.diff")], capture_output=True, text=True)
         if r.returncode != 0:
             return tid, {"_apply": (3, [r.stdout[-200:] + r.stderr[-200:]])}
         res = {}
@@ -46,8 +47,10 @@ def main():
     ap.add_argument("ids", nargs="*")
     ap.add_argument("--jobs", type=int, default=8)
     ap.add_argument("--repo", default="/repo")
+    ap.add_argument("--dir", default="twins", help="sub-directory of /verif holding <id>/patch.diff (twins or twins_limits)")
     a = ap.parse_args()
-    ids = a.ids or sorted(os.path.basename(os.path.dirname(p)) for p in glob.glob(os.path.join(VERIF, "twins", "*", "patch.diff")))
+    DIR[0] = a.dir
+    ids = a.ids or sorted(os.path.basename(os.path.dirname(p)) for p in glob.glob(os.path.join(VERIF, DIR[0], "*", "patch.diff")))
     t0 = time.time()
     bad = 0
     with ThreadPoolExecutor(max_workers=a.jobs) as pool:
